@@ -26,7 +26,9 @@ Record case := {
   k_ref : script;             (* reference run (fresh interpreter) *)
   k_ref_touches : nat;
   k_runs : list run_obs;
-  k_pert : option (Z * Z)     (* digest of the first perturbed request: configured seed, other seed *)
+  k_pert : option (Z * Z);    (* digest of the first perturbed request: configured seed, other seed *)
+  k_twice : list (list Z * list Z)   (* per run: digests of the optimizer step that the workload executes twice
+                                        (same step object, same configuration object, same start), first and second time *)
 }.
 
 Definition foreign_of (j : Z) : Z -> Z := if Z.ltb j 0 then (fun g => Z.succ g) else (fun _ => j).
@@ -49,7 +51,9 @@ Definition ref_ok (c : case) : bool :=
 
 Definition check_case (c : case) : bool :=
   ref_ok c && forallb (check_run c) (k_runs c) &&
-  match k_pert c with None => true | Some (a, b) => negb (Z.eqb a b) end.
+  match k_pert c with None => true | Some (a, b) => negb (Z.eqb a b) end &&
+  (* two runs of one configuration inside one run are identical *)
+  forallb (fun p : list Z * list Z => list_eqb Z.eqb (fst p) (snd p)) (k_twice c).
 
 (* constructors used by the harness *)
 Definition scr (calls : list (bool * Z * Z)) (code : Z) : script := {| s_calls := calls; s_exit := code |}.
